@@ -42,6 +42,8 @@ pub fn tree_invariant<K: Kind>(
     log: &DecodedLog<K>,
     log_range: (usize, usize),
     lvs: f64,
+    limit: f64,
+    world: &crate::world::World,
     check_edge: &dyn Fn(usize) -> bool,
     check_root: bool,
     ctx: &mut Ctx,
@@ -100,7 +102,6 @@ pub fn tree_invariant<K: Kind>(
             );
         }
     }
-    let limit = super::paths::edge_limit(case);
     for (i, nd) in tree.iter().enumerate() {
         // The goal-tree root is drawn by setup(), which cannot report an error; it is validated
         // (and replaced or dropped) by the first solve call. `check_root` is false for snapshots
@@ -108,7 +109,12 @@ pub fn tree_invariant<K: Kind>(
         if i == 0 && !check_root {
             continue;
         }
-        if !case.world.valid(&case.space, &nd.s) {
+        // a start state the checker rejects sits in the tree as a lone root until solve reports
+        // InvalidStartState; it is a defect only once the tree has been grown from it
+        if i == 0 && tree.len() == 1 && root_expect.is_some() {
+            continue;
+        }
+        if !world.valid(&case.space, &nd.s) {
             ctx.fail(
                 format!("C15:invalid-node:{pname}:{which_tree}"),
                 format!("node {i} = {:?} is rejected by the checker", nd.s),
@@ -127,7 +133,7 @@ pub fn tree_invariant<K: Kind>(
                     format!("edge {p}->{i} of length {d:e}: largest stretch without an accepted validity query is {gap:e} > L = {lvs:e} ({n_on} accepted on-segment queries)"),
                 );
             }
-            let run = oracle_b(ks, &case.world, a, b, lvs);
+            let run = oracle_b(ks, world, a, b, lvs);
             if run >= lvs + tol {
                 ctx.fail(
                     format!("C15:edge-crosses-invalid-stretch:{pname}:{which_tree}"),
@@ -248,6 +254,17 @@ fn dense_all_valid<K: Kind>(ks: &KSpace<K>, world: &crate::world::World, a: &[f6
     world.valid(&ks.cfg, b)
 }
 
+/// Do all validity queries of one motion check lie on the segment a-b (metric on-segment test of
+/// oracle A)?
+fn group_on_segment<K: Kind>(ks: &KSpace<K>, group: &[(Vec<f64>, bool)], a: &[f64], b: &[f64]) -> bool {
+    let d = ks.d(a, b);
+    let tol = seg_tol(&ks.cfg, d);
+    group.iter().all(|(q, _)| {
+        let (da, db) = (ks.d(a, q), ks.d(q, b));
+        (da + db - d).abs() <= tol
+    })
+}
+
 fn trees_bits_eq(a: &[NodeF], b: &[NodeF]) -> bool {
     a.len() == b.len()
         && a.iter().zip(b).all(|(x, y)| {
@@ -269,6 +286,7 @@ pub fn transition<K: Kind>(
     ctx: &mut Ctx,
 ) {
     let pname = planner_name(case.planner);
+    let (p_step, p_bias, p_radius) = st.params;
     if st.cap_fired {
         // harness artefact: the query cap zeroed the budget (and the tick counter) mid-call
         ctx.label("step-skipped(query-cap-fired)");
@@ -318,10 +336,10 @@ pub fn transition<K: Kind>(
         }
     };
     if which.c16 {
-        if case.goal_bias == 0.0 && !gsamp.is_empty() {
+        if p_bias == 0.0 && !gsamp.is_empty() {
             ctx.fail(format!("C16:goal-sampled-with-bias-0:{pname}"), "sample_goal called although goal_bias = 0");
         }
-        if case.goal_bias == 1.0 && !usamp.is_empty() {
+        if p_bias == 1.0 && !usamp.is_empty() {
             ctx.fail(format!("C16:uniform-sampled-with-bias-1:{pname}"), "sample_uniform called although goal_bias = 1");
         }
     }
@@ -334,10 +352,23 @@ pub fn transition<K: Kind>(
     match (case.planner, before, &st.snap) {
         (PlannerTag::RRT, Snap::Tree(t0), Snap::Tree(t1))
         | (PlannerTag::RRTStar, Snap::Tree(t0), Snap::Tree(t1)) => {
-            let (nmin, cands) = expected_extension(ks, t0, q, case.step);
+            let (nmin, cands) = expected_extension(ks, t0, q, p_step);
             let outcome = next_motion_outcome(vlog, ids, pos);
             let passed = outcome.map(|o| o.0).unwrap_or(false);
             if let Some((_, p)) = outcome {
+                // "pick a tree node nearest to the drawn sample": the motion that decides this
+                // iteration runs from a nearest node to the new state
+                if which.c16 && !cands.iter().any(|(pi, s)| group_on_segment(ks, &vlog[pos..p], &t0[*pi].s, s)) {
+                    ctx.fail(
+                        format!("C16:first-motion-check-not-from-a-nearest-node:{pname}"),
+                        format!(
+                            "sample {q:?}: the {} validity queries of the iteration's first motion check do not lie on the segment from a nearest node {:?} to the new state {:?}",
+                            p - pos,
+                            t0[cands[0].0].s,
+                            cands[0].1
+                        ),
+                    );
+                }
                 pos = p;
             }
             let star = case.planner == PlannerTag::RRTStar;
@@ -373,7 +404,7 @@ pub fn transition<K: Kind>(
             // "the sample itself / the point at exactly the maximum step": bit-equal to what the
             // reference computes, or - should a refactoring compute the same point by a slightly
             // different expression - within the metric tolerance of it
-            let near_tol = seg_tol(&case.space, case.step) + dist_tol(&case.space, &new.s, &new.s);
+            let near_tol = seg_tol(&case.space, p_step) + dist_tol(&case.space, &new.s, &new.s);
             let matching: Vec<&(usize, Vec<f64>)> = cands
                 .iter()
                 .filter(|(_, s)| bits_eq(s, &new.s) || ks.d(s, &new.s) <= near_tol)
@@ -383,12 +414,12 @@ pub fn transition<K: Kind>(
             }
             if which.c16 {
                 if matching.is_empty() {
-                    let far = nmin > case.step;
+                    let far = nmin > p_step;
                     ctx.fail(
                         format!("C16:wrong-new-state:{pname}:{}", if far { "steered" } else { "within-step" }),
                         format!(
                             "sample {q:?} at distance {nmin:e} from the nearest node (step {:e}): new node {:?}, expected one of {:?}",
-                            case.step,
+                            p_step,
                             new.s,
                             cands.iter().map(|c| &c.1).collect::<Vec<_>>()
                         ),
@@ -399,13 +430,13 @@ pub fn transition<K: Kind>(
                         format!("new node's parent is {:?}, nearest nodes are {:?}", new.parent, cands.iter().map(|c| c.0).collect::<Vec<_>>()),
                     );
                 }
-                if nmin > case.step {
+                if nmin > p_step {
                     // metric form of "exactly one step toward the sample"
                     let dn = ks.d(&t0[cands[0].0].s, &new.s);
-                    if (dn - case.step).abs() > seg_tol(&case.space, case.step) + 1e-9 * case.step {
+                    if (dn - p_step).abs() > seg_tol(&case.space, p_step) + 1e-9 * p_step {
                         ctx.fail(
                             format!("C16:step-length:{pname}"),
-                            format!("new node is {dn:e} from its nearest node, step is {:e}", case.step),
+                            format!("new node is {dn:e} from its nearest node, step is {:e}", p_step),
                         );
                     }
                 }
@@ -416,13 +447,13 @@ pub fn transition<K: Kind>(
                     }
                 }
                 let recent = cands.iter().any(|c| c.0 + 1 == t0.len());
-                if !recent && nmin > case.step {
+                if !recent && nmin > p_step {
                     ctx.nontrivial = true;
                     ctx.label("transition:nearest-is-not-latest-and-steered");
                 }
             }
             if star && which.c17 {
-                rrtstar_transition(ks, case, t0, t1, cands.iter().map(|c| c.0).collect(), vlog, pos, ctx);
+                rrtstar_transition(ks, case, p_radius, t0, t1, cands.iter().map(|c| c.0).collect(), vlog, pos, ctx);
             }
         }
         (PlannerTag::RRTConnect, Snap::Two(s0, g0), Snap::Two(s1, g1)) => {
@@ -432,7 +463,7 @@ pub fn transition<K: Kind>(
             let grow_start = s0.len() <= g0.len();
             let (a0, b0, a1, b1) = if grow_start { (s0, g0, s1, g1) } else { (g0, s0, g1, s1) };
             ctx.label(if grow_start { "connect:start-tree-grows-first" } else { "connect:goal-tree-grows-first" });
-            let (_nmin, cands) = expected_extension(ks, a0, q, case.step);
+            let (_nmin, cands) = expected_extension(ks, a0, q, p_step);
             let outcome = next_motion_outcome(vlog, ids, pos);
             let passed = outcome.map(|o| o.0).unwrap_or(false);
             if let Some((_, p)) = outcome {
@@ -466,7 +497,7 @@ pub fn transition<K: Kind>(
                 return;
             }
             let new_a = &a1[a0.len()];
-            let near_tol = seg_tol(&case.space, case.step) + dist_tol(&case.space, &new_a.s, &new_a.s);
+            let near_tol = seg_tol(&case.space, p_step) + dist_tol(&case.space, &new_a.s, &new_a.s);
             if !cands.iter().any(|(p, s)| (bits_eq(s, &new_a.s) || ks.d(s, &new_a.s) <= near_tol) && Some(*p) == new_a.parent) {
                 ctx.fail(
                     "C16:connect:wrong-extension-of-first-tree:RRTConnect",
@@ -485,7 +516,7 @@ pub fn transition<K: Kind>(
                 return;
             }
             // connect: tree_b extends toward new_a
-            let (_n2, cands_b) = expected_extension(ks, b0, &new_a.s, case.step);
+            let (_n2, cands_b) = expected_extension(ks, b0, &new_a.s, p_step);
             let outcome_b = next_motion_outcome(vlog, ids, pos);
             let Some((passed_b, _)) = outcome_b else {
                 // "... and then tries to connect the other tree to the new node": every attempt
@@ -531,7 +562,8 @@ pub fn transition<K: Kind>(
 #[allow(clippy::too_many_arguments)]
 fn rrtstar_transition<K: Kind>(
     ks: &KSpace<K>,
-    case: &PlanCase,
+    _case: &PlanCase,
+    radius: f64,
     t0: &[NodeF],
     t1: &[NodeF],
     nearest: Vec<usize>,
@@ -550,7 +582,7 @@ fn rrtstar_transition<K: Kind>(
         return;
     }
     // neighbourhood (strict <)
-    let nb: Vec<usize> = (0..n).filter(|j| ks.d(&new.s, &t0[*j].s) < case.radius).collect();
+    let nb: Vec<usize> = (0..n).filter(|j| ks.d(&new.s, &t0[*j].s) < radius).collect();
     let rest = &vlog[pos.min(vlog.len())..];
     // rejected queries of the remainder of this iteration, decoded once
     let rejected: Vec<&Vec<f64>> = rest.iter().filter(|(_, a)| !*a).map(|(s, _)| s).collect();
@@ -577,7 +609,7 @@ fn rrtstar_transition<K: Kind>(
     if !is_cand {
         ctx.fail(
             "C17:parent-not-a-candidate",
-            format!("parent {parent} is neither the nearest node {nearest:?} nor within the search radius {:e} (neighbours {nb:?})", case.radius),
+            format!("parent {parent} is neither the nearest node {nearest:?} nor within the search radius {:e} (neighbours {nb:?})", radius),
         );
     }
     // (b) cheapest validly reachable candidate
@@ -711,7 +743,7 @@ pub fn check_trace<K: Kind>(case: &PlanCase, trace: &Trace, which: Which, only_l
                             Some(old) => old.parent != t[i].parent || !bits_eq(&old.s, &t[i].s),
                         }
                     };
-                    tree_invariant(&ks, case, t, name, root, &log, (st.vlog.0, st.vlog.1), lvs, &changed, ti == 0 || solved_once, ctx);
+                    tree_invariant(&ks, case, t, name, root, &log, (st.vlog.0, st.vlog.1), lvs, super::paths::edge_limit_upto(case, trace, i), case.world_by_index(worlds[i]), &changed, ti == 0 || solved_once, ctx);
                     if ti == 1 && !t.is_empty() {
                         // goal root: satisfies the goal and is a logged sample_goal output
                         let r = &t[0].s;
